@@ -26,6 +26,9 @@ RULE = ("every subset of 3 valid deployment names x per deployment {secret absen
 from vmc.tables import _ROUND6 as _R6  # noqa: E402
 
 RULE += _R6["C33"]
+from vmc.tables import _ROUND7 as _R7  # noqa: E402
+
+RULE += _R7["C33"]
 
 
 
